@@ -1077,6 +1077,20 @@ def gen_knobs(rng, case, P=None):
         if case["meta"]["big"] in (2, 3) and rng.random() < 0.4:
             # everything in one or two chunks: more than 10000 reads (the progress batch size) per chunk
             buf = max(floor, total // rng.randint(1, 2) + 1000)
+    nofinal_ = (case["input"].get("text") or {}).get("final_newline") is False
+    if not case.get("meta", {}).get("big") and rng.random() < (0.5 if nofinal_ else 0.06):
+        # boundary values: the buffer is exactly as large as one of the input streams (or one byte off), so
+        # that a fill of the reader ends exactly where the data end
+        text_ = case["input"].get("text") or {}
+        sizes_ = []
+        for s_ in (s1, s2) if (s2 and case["input"]["layout"] == "two") else ([[a + b for a, b in zip(s1, s2)]] if s2 else [s1]):
+            n_ = sum(s_)
+            if text_.get("final_newline") is False and n_:
+                n_ -= 2 if text_.get("eol") == "crlf" else 1
+            sizes_.append(n_)
+        cand = rng.choice(sizes_) + rng.choice([-1, 0, 0, 0, 1])
+        if cand >= floor:
+            buf = cand
     workers = rng.randint(*P["workers"])
     if case.get("meta", {}).get("big") == 2 and rng.random() < 0.5:
         workers = P["workers"][0]  # few workers, several large chunks: a worker gets a large chunk and then another
@@ -1125,6 +1139,9 @@ def gen_knobs(rng, case, P=None):
                 knobs["policy"] = {"kind": "starve", "victim": e.randrange(2, workers + 2), "window": [lo, lo + 20000]}
         # (a piece is never so small that the input falls into more than a few hundred chunks)
         knobs["short_reads"] = max(knobs["short_reads"], total // 250)
+        if case.get("meta", {}).get("n_ad1", 0) > 100:
+            # hundreds of output files: every chunk costs several hundred scheduler steps
+            knobs["short_reads"] = max(knobs["short_reads"], total // 12)
     return knobs
 
 
